@@ -308,3 +308,50 @@ func VH_C07_revisions() {
 	// (r1 with s1, the new object with r1) may legitimately refuse the batch too
 	vAssert("C07.rev.must_refuse", !reject || err != nil)
 }
+
+// vBulkPlain: the cheapest possible object (no indexed field), with a
+// Validate hook that refuses one marked value.
+type vBulkPlain struct {
+	Item
+	N int64
+}
+
+func (b *vBulkPlain) Validate() error {
+	if b.N < 0 {
+		return ErrInvalidObject
+	}
+	return nil
+}
+
+// VH_C07_bulk_large: the chunk size the caller asked for is the unit of
+// atomicity however large it is.  Thousands of (concrete) objects through
+// InsertOrUpdateBulk with one chunk size beyond any internal buffer size
+// (5000): an object refused near the end of the chunk means nothing of that
+// chunk is stored; the count returned is the number of objects of the
+// complete chunks before it.  Bound: sizes up to 2 * 5000 objects, a refusal
+// at one of three positions; no symbolic data (this is a scale scenario, the
+// solver only sees constants).
+func VH_C07_bulk_large() {
+	root := vTempDir()
+	db := Open(root)
+	LowercaseNames = false
+	vAssert("C07.large.create", db.Create(&vBulkPlain{}, DefaultSchema) == nil)
+	csize := 5000
+	total := []int{4100, 5003}[vChoice("total", vBound("TOTALS", 1))]
+	bad := total - 1 - vChoice("badpos", 2)*3
+	ch := make(chan Object, total)
+	for k := 0; k < total; k++ {
+		o := &vBulkPlain{N: int64(k)}
+		if k == bad {
+			o.N = -1
+		}
+		ch <- o
+	}
+	close(ch)
+	n, err := db.InsertOrUpdateBulk(ch, csize)
+	vAssert("C07.large.refused", err != nil)
+	want := (bad / csize) * csize // complete chunks before the refused one
+	vAssert("C07.large.count_is_whole_chunks", n == want)
+	cnt, cerr := db.Count(&vBulkPlain{})
+	vAssert("C07.large.stored_is_whole_chunks", cerr == nil && cnt == want)
+}
